@@ -22,8 +22,9 @@ class Spec:
     """What a property needs: Lean obligations and a correspondence stream."""
 
     def __init__(self, prop, title, lean_targets, theorems, imports, gen, view=None, predicate=None, rule="", assumptions=(),
-                 extra=None, partial=None, batch_predicate=None):
+                 extra=None, partial=None, batch_predicate=None, selfcheck=None):
         self.batch_predicate = batch_predicate
+        self.selfcheck = selfcheck   # selfcheck(cases, model_outputs) -> (imports, [Lean `example` strings]) re-checked by the kernel
         if batch_predicate and not predicate:
             predicate = lambda case, im, m, ctx: batch_predicate([case], [im], ctx)[0]  # noqa: E731
         self.prop = prop
@@ -168,6 +169,17 @@ def run_check(spec, tier, seed):
     model = core.run_driver(pairs)
     impl, crashes = core.run_harness(hdir, pairs) if hdir else ([None] * len(cases), 0)
     ctx.model, ctx.impl = model, impl
+
+    # the compiled driver is assumed to compute what the kernel-level definitions denote; a sample of its results is re-checked
+    # in the kernel (`example : <model term> = <driver's result> := by decide`)
+    if spec.selfcheck:
+        imports, examples = spec.selfcheck(cases, model)
+        if examples:
+            src = "".join("import %s\n" % i for i in imports) + "open AsamCmp\n" + "\n".join(examples) + "\n"
+            rc, out = core.lean_run(src, "selfcheck_" + prop)
+            cov["driver_results_rechecked_in_kernel"] = {"examples": len(examples), "ok": rc == 0}
+            if rc != 0:
+                broken.append(("kernel re-check of compiled driver results", out[-2000:]))
 
     view = spec.view or (lambda case, lines: lines)
     mismatches = []
